@@ -9,7 +9,7 @@ META = {
                 text="Bounded exhaustive enumeration of PDU build scripts on the real coap_pdu API for UDP/TCP/WS framing; every script's bytes are compared byte-for-byte with an independent RFC 7252/8323/8974 encoder, re-parsed by libcoap and compared with a list model; refusals must be explained by the reference and leave the message unchanged.",
                 note="Bound: option sequences <=3 (quick) / <=4 (thorough) over a boundary alphabet of (number,length) pairs, token and payload length classes, max_size classes; trusted: the reference codec in ref/refmsg.c (self-tested)."),
     "C02": dict(engine="vx-inproc+netsim", technique="exhaustive enumeration of short byte strings, of all single-field mutations of valid messages in a catalogue of endpoint states, of block-number sequences and of frame sequences x stream segmentations, ASan/UBSan + canary oracle",
-                text="Every byte string up to a length bound over full/boundary alphabets through the real parser and debug printer, and every single-field mutation of the catalogue's valid messages delivered to real endpoints in reached protocol states (block transfers, observe, TCP/WS sessions), under ASan/UBSan with live asserts; afterwards a canary request must be answered correctly and malformed input must not reach handlers.",
+                text="Every byte string up to a length bound over full/boundary alphabets through the real parser and debug printer, and every single-field mutation of the catalogue's valid messages delivered to real endpoints in reached protocol states (block transfers, observe, TCP/WS sessions), under ASan/UBSan with live asserts; afterwards a canary request must be answered correctly and malformed input must not reach handlers. Also: every field-level rewrite (type x code x token x options kept/dropped) of every datagram of the UDP exchanges, all sequences of Block1/Q-Block1 requests in hostile order, and frame sequences on TCP/WS under every segmentation with <=2 cuts.",
                 note="Not all byte strings: bounded lengths/alphabets, single mutations per state, block-number sequences <=5/6 over 0..11, 2-3 frames x <=2 cuts (see DESIGN 4, 7.4); trusted: sanitizers, the harness's classification of malformed input (ref decoder)."),
     "C03": dict(engine="vx-inproc", technique="exhaustive differential enumeration of byte strings and single-field mutations against an independent reference decoder",
                 text="Exhaustive differential check of coap_pdu_parse (and the stream size/header functions) against an independent RFC 7252/8323/8974 decoder: all byte strings <=3 after 21+ header variants, boundary-alphabet strings up to 5/6 bytes, and every single-field mutation of a corpus of valid encodings; accept/reject must agree in both directions and accepted messages must decode identically.",
@@ -18,13 +18,13 @@ META = {
                 text="Breadth-first search over sequences of insert/update/remove/retoken/duplicate edits applied to real coap_pdu_t objects (fresh and parsed, tight and roomy allocations), deduplicated on the canonical (model, allocator fields) state; after every edit the accessor dump, the re-serialised bytes and the internal size fields must equal the abstract list model.",
                 note="Bound: depth and <=5-option cap, edit alphabet chosen to cross every delta/length encoding threshold; trusted: ref/refmsg.c."),
     "C05": dict(engine="vx-inproc+netsim", technique="exhaustive cut-placement enumeration plus explicit-state search over stream-reader states (all 2^(N-1) segmentations)",
-                text="A real libcoap TCP/WebSocket server session is fed fixed valid byte streams (CSM/HTTP upgrade + messages covering all length/token/frame forms, a buffer-filling read, an oversize length, an over-long handshake line) under every placement of <=2/3 read boundaries, byte-wise, and - by BFS over the reader's state with state merging - all 2^(N-1) segmentations; the messages reaching the handler must equal what was composed and the bytes written back must not depend on the segmentation.",
+                text="A real libcoap TCP/WebSocket server session is fed fixed valid byte streams (CSM/HTTP upgrade + messages covering all length/token/frame forms, a buffer-filling read, the 32-bit length form in a valid 65.8 KB message, an oversize length, a length above a configured maximum, legal and over-long handshake lines) under every placement of <=2/3 read boundaries, byte-wise, and - by BFS over the reader's state with state merging - all 2^(N-1) segmentations; the messages reaching the handler must equal what was composed and the bytes written back must not depend on the segmentation.",
                 note="Server direction only; fixed streams (9) rather than all message sequences; the search over all segmentations runs on the short streams in quick and on all streams in thorough, a search that meets its deadline is reported in cap_hit; state merging relies on the dumped reader fields (listed in the harness); recv() on harness-owned descriptors is served by the harness, coap_socket_read/write stay real."),
     "C06": dict(engine="vx-netsim", technique="deviation-bounded exhaustive schedule exploration (stateless DFS over delivery/loss/duplication/timer choices) of the real client with a trace monitor",
                 text="Real libcoap client context against raw peers on a simulated network with a virtual clock: the full configuration product (ACK_TIMEOUT x ACK_RANDOM_FACTOR x MAX_RETRANSMIT x random byte x peer silence x ACK/RST), all 2^10 drop subsets of the first 10 datagrams, and all schedules with <=2/3 deviations for multi-message scripts sharing one send queue; a monitor written from RFC 7252 4.2/4.8 predicts for every coap_io_prepare_io() call which messages must be retransmitted or given up and checks byte identity, single outcome and the reported wait time.",
                 note="Also Confirmable notifications created inside coap_io_prepare_io and two sessions with equal message ids; netsim checks every returned wait time against the send queue. Bound: <=3 messages on <=2 sessions, deviation bound 2 (quick) / 3 (thorough); delivery latency 0; no ping_timeout; a nack callback with sent==NULL is not counted as a message outcome."),
     "C07": dict(engine="vx-netsim", technique="deviation-bounded exhaustive schedule exploration of real client + real server (piggybacked / separate / async) with callback and wire monitors",
-                text="Real libcoap client against a real libcoap server (piggybacked, async-trigger and async-delay separate responses) and raw peers (empty ACK + separate NON/CON in either order): sequences of 1-3 requests, all schedules with <=2..4 drop/duplicate/reorder deviations and all 2^10 drop subsets for the piggybacked style, timers only when the network is empty; monitors check exactly-one conclusion per CON request, no retransmission after a response, ACK/RST of every CON response incl. duplicates, FAIL => RST, NON once per datagram.",
+                text="Real libcoap client against a real libcoap server (piggybacked, async-trigger and async-delay separate responses) and raw peers (empty ACK + separate NON/CON in either order): sequences of 1-3 requests (also submitted back to back, with a first request that is given up, and with a second session of the same context in back-off sharing the send queue), all schedules with <=2..4 drop/duplicate/reorder deviations and all 2^10 drop subsets for the piggybacked style, timers only when the network is empty; monitors check exactly-one conclusion per CON request, no retransmission after a response, ACK/RST of every CON response incl. duplicates, FAIL => RST, NON once per datagram.",
                 note="One exchange outstanding per session; servers answer before client timers; raw peers idempotent and token-echoing; two genuine upstream limitations are listed in known_findings.json."),
     "C08": dict(engine="vx-netsim", technique="deviation-bounded exhaustive schedule exploration of the real client against an ACK/RST-only raw peer with an in-flight monitor",
                 text="Real libcoap client session (NSTART 1..4) against a raw peer that only ACKs/RSTs what it received: all CON/NON type vectors of bursts of 1-4(5) messages in one or two bursts with a bystander session, long bursts of 8/13/20 messages, message-id wrap inside a burst, a given-up first CON, all schedules with <=1..3 deviations (drop/duplicate/reorder, timer-first, RST or silence as verdict incl. RST for a NON); the monitor derives the in-flight set from the wire and checks |in-flight| <= NSTART at every first transmission, FIFO release of held CONs as soon as a slot frees, NON never delayed, nothing lost.",
@@ -33,7 +33,7 @@ META = {
                 text="Real libcoap client and server doing Block1/Block2 on the application's behalf: fault-free sweep over body lengths around every block-size multiple x SZX x MTU x delivery mode x CON/NON, and all schedules with <=1/2 deviations for representative transfers; the receiver must get exactly the sender's body (once, or as tiling blocks), handlers only see application tokens, every datagram fits the MTU, release callbacks run exactly once.",
                 note="Bounds per evidence; 64 KiB bodies fault-free only."),
     "C10": dict(engine="vx-inproc+netsim", technique="exhaustive product enumeration of request features x resource tables through the real receive path against an executable decision table",
-                text="Full Cartesian product of request type x code x token x Uri-Path x option subsets (<=2/3) x destination x resource table injected as datagrams into a real server endpoint; replies are compared with an independent decision table of the statement's rules (reply count, token/mid echo, code priority order, handler invocation, No-Response and multicast suppression).",
+                text="Full Cartesian product of request type x code x token x Uri-Path x option subsets (<=2/3; plus a repetition sweep: every defined option twice) x destination x resource table injected as datagrams into a real server endpoint; replies are compared with an independent decision table of the statement's rules (reply count, token/mid echo, code priority order, handler invocation, No-Response and multicast suppression).",
                 note="Request datagrams only (responses are C07); where the statement is silent nothing is compared."),
     "C11": dict(engine="vx-netsim", technique="exhaustive enumeration of observe operation sequences x deviation-bounded schedules with a per-observer reference automaton",
                 text="All register/change/cancel/re-register/RST/delete/close operation sequences up to depth 4/6 by 1-2 clients and a raw observer on 2 resources, each under all schedules with <=1/2 deviations; a per-observer automaton checks tokens, strictly increasing Observe values (RFC 7641 serial order), a CON at least every sixth notification, eventual notification of the last state, silence after deregistration, single entry on re-registration, session kept alive.",
@@ -57,13 +57,13 @@ META = {
                 text="All histories up to depth 4/6 of dynamic-resource and observe operations with persistence enabled; the process is killed before every tracked stdio/rename call; each file must be the complete pre- or post-update content, and a fresh process must restore every resource and observation and continue Observe numbering above anything sent before.",
                 note="Process-death crash model (SIGKILL semantics), real stdio on tmpfs."),
     "C18": dict(engine="vx-netsim", technique="exhaustive allocation-failure injection (every index k, and every pair for most scenarios, of every catalogue scenario) with ASan/LSan and canary oracle",
-                text="For every scenario of a fixed catalogue and every index k of an allocation made through coap_malloc_type/coap_realloc_type, exactly the k-th allocation fails; no crash, no invalid access, no leak (LSan + per-tag counters), ownership rules hold, and a follow-up canary exchange with memory available succeeds.",
+                text="For every scenario of a fixed catalogue and every index k of an allocation made through coap_malloc_type/coap_realloc_type, exactly the k-th allocation fails; no crash, no invalid access, no leak (LSan + per-tag counters), ownership rules hold, and follow-up canary exchanges with memory available succeed, one on a fresh session and one on the scenario's own session. Catalogue: request/response, async, Block1, Block2, observe, URI helpers, TCP, WebSocket, set-up/tear-down, raw block-wise peers without size options, OSCORE, resource discovery with a block-wise listing.",
                 note="Only allocations through libcoap's funnel; GnuTLS/uthash raw malloc outside."),
     "C19": dict(engine="vx-netsim", technique="deviation-bounded exhaustive schedule exploration of real DTLS (GnuTLS) client and server over the simulated network, credential product",
                 text="Real GnuTLS-backed DTLS client and server contexts over the simulated network with a virtual clock: product of client identity/key x server key table configurations, loss/duplication/reorder of handshake and record datagrams within a deviation bound, injected cleartext CoAP; handlers run only after a handshake with matching credentials, nothing queued leaves in clear, each queued CON gets exactly one NACK on failure, queued messages are delivered in order exactly once on success. The product is repeated with a client context in COAP_BLOCK_USE_LIBCOAP mode whose last queued Confirmable registers an observation.",
                 note="PSK only, GnuTLS only; DTLS under loss/duplication/reordering, TLS (over the simulated TCP stream) for the credential product without faults; includes a server choosing the key by SNI with a filled SNI cache, servers without identity hint, survival of the loss of the first handshake flight."),
     "C20": dict(engine="vx-inproc", technique="exhaustive enumeration of resource tables x filters x all (offset, buffer length) windows against an RFC 6690 reference; exhaustive block-wise GET over the simulated network for tables x filters x Block2 sizes, differential against the in-process listing",
-                text="All subsets (<=3/4) of a catalogue of resource shapes x 15 filters x every (offset, buflen) window up to the listing length + 2 through coap_print_wellknown / coap_print_link; the full listing must equal the reference RFC 6690 listing as a set of links, every window must be exactly that slice with exact total length and truncation flag, nothing written outside the buffer.",
+                text="All subsets (<=3/4) of a catalogue of resource shapes x 15 filters x every (offset, buflen) window up to the listing length + 2 through coap_print_wellknown / coap_print_link; the full listing must equal the reference RFC 6690 listing as a set of links, every window must be exactly that slice with exact total length and truncation flag, nothing written outside the buffer. Stage c20get: block-wise GET of the listing by a raw client for tables x filters x Block2 sizes x size switch x {no / an application unknown-resource handler}, re-assembled body compared with the in-process listing.",
                 note="Trusted: ref/reflink.c; the block-wise GET clause is stage c20get (COAP_BLOCK_USE_LIBCOAP servers only: without it libcoap does no block-wise transfer)."),
 }
 
